@@ -277,6 +277,27 @@ add("C06", "TLC on FieldArith.tla (contractions of fields over tuples of spaces 
     "fail, operands on a different domain of the same shape must be rejected.",
     TRUST + "sphere pixelisations enter through C08's volume laws only.")
 
+add("C18", "TLC on LinGauss.tla (exact posterior covariance of linear Gaussian models and its blocks under point estimates) + exact sample covariance of the real samplers by unit excitations (classic through Random.normal, JAX through evi.random_like)",
+    "24 models (six response matrices incl. rank 0 and rank 1, two noise settings, two data vectors): D = (1 + R^T N^-1 R)^-1 by adjugates in Rat; "
+    "TLC checks D Dinv = 1, symmetry, 0 < D_ii <= 1, conditional <= marginal variances. For the classic SampledKLEnergy (mirrored / not, 1-2 "
+    "samples, point estimates, MGVI and geoVI) and for nifty.re's draw_linear_residual / draw_residual the linear map excitations -> residuals "
+    "is extracted: L L^T = D (block under point estimates, zero residual for point-estimated keys), draws independent, mirrored samples exact "
+    "negatives, average = expansion point, non-linear update leaves samples of a linear model unchanged.",
+    TRUST + "CG tolerances 1e-13, comparison 1e-9; OptimizeVI's sample-mode state machine is covered by C24's spec, not here.")
+add("C19", "TLC on LinGauss.tla (sampled KL of quadratic Hamiltonians in Rat: value and gradient of the average over expansion point +- residuals; closed-form law for mirrored samples) + replay into SampledKLEnergyClass / SampledKLEnergy and nifty.re _kl_vg / _kl_met",
+    "For every model, two expansion points and two residuals (mirrored and not) the spec gives the exact average value and gradient; the metric is "
+    "Dinv. Replayed into the classic energy on a ResidualSampleList with exactly these residuals (value, gradient, dense metric, at(), constant "
+    "keys: gradient / metric of the free keys only, a minimiser step leaves the constant keys of the samples untouched), the energy built by "
+    "SampledKLEnergy from its own samples (value / gradient = plain averages), and nifty.re's _kl_vg / _kl_met and Samples.at(). Mildly non-linear "
+    "versions of the models are checked for self-consistency (KL = average of the library's own Hamiltonian over the samples at the moved point).",
+    TRUST + "with constant keys only gradient and metric are compared (the classic energy drops position-independent terms).")
+add("C20", "TLC on LinGauss.tla (exact posterior mean and covariance; signal-space = data-space Wiener filter checked) + replay into wiener_filter_posterior, WienerFilterCurvature, classic and JAX optimize_kl (MAP and MGVI)",
+    "m = D R^T N^-1 d and D exactly for all 24 models incl. rank-deficient responses (TLC: Dinv m = j and m = R^T (R R^T + N)^-1 d). nifty.re's "
+    "wiener_filter_posterior in signal and in data space, its mirrored samples, the classic WienerFilterCurvature inverse and its sampler (exact "
+    "covariance by unit excitations), and three iterations of the classic and of the JAX VI driver as MAP and as MGVI must reproduce m (1e-9 / 1e-7) "
+    "and D.",
+    TRUST + "in quick mode the VI drivers run on a quarter of the models.")
+
 
 def main():
     props = [json.loads(l) for l in open(os.path.join(HERE, "properties.jsonl"))]
